@@ -173,8 +173,10 @@ func runConc(seed int64, be string, maxG, opsPer int) ([][]byte, map[string]int)
 		do(0, E{"op": "CreateIndex", "c": c, "f": B("x")})
 	}
 	docs := make([]interface{}, 0)
-	for i := 0; i < 3; i++ {
-		docs = append(docs, g.doc(AStr(g.ids[i])))
+	for i := 0; i < 4; i++ {
+		d := g.doc(AStr(g.ids[i]))
+		d = ObjSet(d, "x", ANum(g.smallN[1+i%2], "i"))
+		docs = append(docs, d)
 	}
 	do(0, E{"op": "Insert", "c": c, "docs": docs})
 
@@ -184,6 +186,18 @@ func runConc(seed int64, be string, maxG, opsPer int) ([][]byte, map[string]int)
 		for k := 0; k < opsPer; k++ {
 			progs[gi] = append(progs[gi], g.concOp(c, gi))
 		}
+	}
+	// predicate-based writers whose predicates read what the other one writes (write-skew shape):
+	// "set x := b where x = a" against "set x := a where x = b"
+	if g.chance(0.35) {
+		a, bb := ANum(g.smallN[1], "i"), ANum(g.smallN[2], "i")
+		mk := func(from, to V) E {
+			g.stamp++
+			return E{"op": "Update", "c": c, "q": []interface{}{[]interface{}{"where", []interface{}{"un", "eq", B("x"), []interface{}{"lit", from}}}},
+				"upd": []interface{}{"setall", []interface{}{[]interface{}{B("u"), AStr(fmt.Sprintf("op%d", g.stamp))}, []interface{}{B("x"), to}}}}
+		}
+		progs[0][0] = mk(a, bb)
+		progs[1][0] = mk(bb, a)
 	}
 	var wg sync.WaitGroup
 	start := make(chan struct{})
